@@ -982,4 +982,182 @@ theorem dueLoop_W {par : Nat → Sess} {P : Nat → Nat → Nat → Prop} (hp : 
           rw [nothingDue_iff]; intro h r' hh; rw [hn] at hh; cases hh; omega
         rw [dueLoop_not_due _ l hnd]
 
+theorem afterRx_W {par : Nat → Sess} {P : Nat → Nat → Nat → Prop} (hp : GPar par) (s mid : Nat) (l : L)
+    (hi : FInv False par P l) : W s mid (par s).maxRtx (afterRx l) = W s mid (par s).maxRtx l := by
+  unfold afterRx
+  rw [prepareCore_fst]
+  exact dueLoop_W hp s mid _ l hi
+
+theorem W_removed_le (s mid mx : Nat) (l : L) (s' m' : Nat) :
+    W s mid mx ({ l with q := { l.q with nodes := (removeNode l.q.nodes s' m').2 } } : L) ≤ W s mid mx l := by
+  have := budC_removeNode_le s mid mx l.q.nodes s' m'
+  simp only [W]
+  show txC s mid l.out + budC s mid mx (removeNode l.q.nodes s' m').2 + (mx + 1) * midC mid (l.getS s).delayq ≤ _
+  omega
+
+theorem step_W {par : Nat → Sess} {P : Nat → Nat → Nat → Prop} (hp : GPar par) (s mid : Nat) (l : L) (ev : Ev)
+    (hi : FInv False par P l) (hok : EvG l ev) :
+    W s mid (par s).maxRtx (Msg.step l ev) ≤ W s mid (par s).maxRtx l + ((par s).maxRtx + 1) * accW s mid l ev := by
+  cases ev with
+  | setNow t => exact Nat.le_add_right _ _
+  | prepare =>
+    have hk := dueLoop_W hp s mid (dueFuel l) l hi
+    simp only [Msg.step, prepare, accW, Nat.mul_zero, Nat.add_zero]
+    rcases hpc : prepareCore l with ⟨l', w⟩
+    have e : l' = dueLoop (dueFuel l) l := by rw [← prepareCore_fst, hpc]
+    subst e
+    rw [W_emit_other _ _ _ _ _ (by intros; simp), hk]
+    exact Nat.le_refl _
+  | submit s' con m' r =>
+    obtain ⟨hcon, hT, h64⟩ := hok
+    subst hcon
+    obtain ⟨ca, dq, hg, hle, hdq⟩ := hi.sess s'
+    obtain ⟨hest, hopen, hns, h256⟩ := hp s'
+    have hso : (l.getS s').sockOpen = true := by rw [hg]; exact hopen
+    by_cases hroom : ca < (par s').nstart
+    · have hgt : gate (l.getS s') true = false := by
+        have : ¬ ((l.getS s').conActive ≥ (l.getS s').nstart) := by rw [hg]; simp only []; omega
+        have he : (l.getS s').est = true := by rw [hg]; exact hest
+        simp [gate, he, this]
+      have hM : Msg.step l (.submit s' true m' r) =
+          (waitAck ((l.emit (.tx l.now s' m' 0 true)).setS s'
+              { (l.getS s') with conActive := ((l.getS s').conActive + 1) % 256 })
+            { sess := s', mid := m', t := 0,
+              timeout := calcTimeout (l.getS s').atI (l.getS s').atF (l.getS s').arfI (l.getS s').arfF r,
+              cnt := 0, tok := m', con := true }).emit (.sub (some m')) := by
+        simp only [Msg.step, submit, hso, hgt]
+        simp
+      have hacc : accW s mid l (.submit s' true m' r) = (if s' = s ∧ m' = mid then 1 else 0) := by
+        simp [accW, hgt]
+      rw [hM, hacc, W_emit_other _ _ _ _ _ (by intros; simp)]
+      generalize calcTimeout (l.getS s').atI (l.getS s').atF (l.getS s').arfI (l.getS s').arfF r = T
+      have hbq : budC s mid (par s).maxRtx (enqueue l.q l.now (T * 2 ^ 0 % 4294967296)
+          { sess := s', mid := m', t := 0, timeout := T, cnt := 0, tok := m', con := true }).nodes =
+          (if s' = s ∧ m' = mid then (par s).maxRtx else 0) + budC s mid (par s).maxRtx l.q.nodes :=
+        budC_enqueue s mid (par s).maxRtx l.q l.now _ _ (Or.inr hi.base)
+      have hd : (L.getS (L.setS (l.emit (.tx l.now s' m' 0 true)) s'
+          { (l.getS s') with conActive := ((l.getS s').conActive + 1) % 256 }) s).delayq = (l.getS s).delayq :=
+        delayq_setS_keep (l.emit (.tx l.now s' m' 0 true)) s' s
+          { (l.getS s') with conActive := ((l.getS s').conActive + 1) % 256 } rfl
+      simp only [W]
+      show txC s mid (_ :: l.out) + budC s mid (par s).maxRtx (enqueue l.q l.now _ _).nodes +
+        ((par s).maxRtx + 1) * midC mid (L.getS (L.setS (l.emit _) s' _) s).delayq ≤ _
+      rw [hbq, hd]
+      by_cases hm : s' = s ∧ m' = mid
+      · simp only [txC, hm, and_self, if_true, Nat.mul_one]
+        omega
+      · simp only [txC, hm, if_false, Nat.mul_zero]
+        omega
+    · have hgt : gate (l.getS s') true = true := by
+        have : (l.getS s').conActive ≥ (l.getS s').nstart := by rw [hg]; simp only []; omega
+        simp [gate, this]
+      by_cases hany : (l.getS s').delayq.any (fun x => x.mid = m') = true
+      · have hM : Msg.step l (.submit s' true m' r) = l.emit (.sub none) := by
+          simp only [Msg.step, submit, hso, hgt]
+          simp only [Bool.not_true, Bool.false_eq_true, if_false, if_true]
+          rw [if_pos]
+          simpa using hany
+        rw [hM, W_emit_other _ _ _ _ _ (by intros; simp)]
+        exact Nat.le_add_right _ _
+      · have hM : Msg.step l (.submit s' true m' r) =
+            (l.setS s' { (l.getS s') with delayq := (l.getS s').delayq ++
+              [{ sess := s', mid := m', t := 0,
+                 timeout := calcTimeout (l.getS s').atI (l.getS s').atF (l.getS s').arfI (l.getS s').arfF r,
+                 cnt := 0, tok := m', con := true }] }).emit (.sub (some m')) := by
+          simp only [Msg.step, submit, hso, hgt]
+          simp only [Bool.not_true, Bool.false_eq_true, if_false, if_true]
+          rw [if_neg]
+          simpa using hany
+        have hacc : accW s mid l (.submit s' true m' r) = (if s' = s ∧ m' = mid then 1 else 0) := by
+          simp [accW, hgt, hany]
+        rw [hM, hacc, W_emit_other _ _ _ _ _ (by intros; simp)]
+        generalize calcTimeout (l.getS s').atI (l.getS s').atF (l.getS s').arfI (l.getS s').arfF r = T
+        have hin : s' < l.sess.length := by
+          apply Classical.byContradiction
+          intro hn
+          have hdflt := getS_default hn
+          rw [hdflt] at hgt
+          simp [gate] at hgt
+        have hd : midC mid ((l.setS s' { (l.getS s') with delayq := (l.getS s').delayq ++
+              [{ sess := s', mid := m', t := 0, timeout := T, cnt := 0, tok := m', con := true }] }).getS s).delayq =
+            midC mid (l.getS s).delayq + (if s' = s ∧ m' = mid then 1 else 0) := by
+          by_cases hss : s' = s
+          · subst hss
+            rw [getS_setS_in _ hin]
+            simp only [midC_append, midC, true_and, Nat.add_zero]
+          · rw [getS_setS_ne _ hss]
+            simp [hss]
+        simp only [W]
+        show txC s mid l.out + budC s mid (par s).maxRtx l.q.nodes +
+          ((par s).maxRtx + 1) * midC mid (L.getS (L.setS l s' _) s).delayq ≤ _
+        rw [hd, Nat.mul_add]
+        omega
+  | rxAck s' m' =>
+    obtain ⟨ca, dq, hg, hle, hdq⟩ := hi.sess s'
+    have hso : (l.getS s').sockOpen = true := by rw [hg]; exact (hp s').2.1
+    obtain ⟨hi1, _, _⟩ := removed_finv l s' m' hi (futF l)
+    have hle1 := W_removed_le s mid (par s).maxRtx l s' m'
+    simp only [Msg.step, hso, if_true, accW, Nat.mul_zero, Nat.add_zero]
+    have hk1 : W s mid (par s).maxRtx (rxAck l s' m') =
+        W s mid (par s).maxRtx ({ l with q := { l.q with nodes := (removeNode l.q.nodes s' m').2 } } : L) ∧
+        FInv False par P (rxAck l s' m') := by
+      unfold rxAck
+      rcases hrm : removeNode l.q.nodes s' m' with ⟨sent, rest⟩
+      rw [hrm] at hi1
+      cases sent with
+      | none => exact ⟨rfl, hi1⟩
+      | some n => exact ⟨release_W hp s mid _ s' hi1, (release_finv hp _ s' hi1 (futF _)).1⟩
+    rw [afterRx_W hp s mid _ hk1.2, hk1.1]
+    exact hle1
+  | rxRst s' m' =>
+    obtain ⟨ca, dq, hg, hle, hdq⟩ := hi.sess s'
+    have hso : (l.getS s').sockOpen = true := by rw [hg]; exact (hp s').2.1
+    obtain ⟨hi1, _, hkey⟩ := removed_finv l s' m' hi (futF l)
+    have hle1 := W_removed_le s mid (par s).maxRtx l s' m'
+    simp only [Msg.step, hso, if_true, accW, Nat.mul_zero, Nat.add_zero]
+    have hk1 : W s mid (par s).maxRtx (rxRst l s' m') =
+        W s mid (par s).maxRtx ({ l with q := { l.q with nodes := (removeNode l.q.nodes s' m').2 } } : L) ∧
+        FInv False par P (rxRst l s' m') := by
+      unfold rxRst
+      rcases hrm : removeNode l.q.nodes s' m' with ⟨sent, rest⟩
+      rw [hrm] at hi1 hkey
+      simp only [] at hi1 hkey ⊢
+      cases sent with
+      | none =>
+        exact ⟨W_emit_other _ _ _ _ _ (by intros; simp), finv_emit_other _ hi1 ⟨by intros; simp, by intros; simp⟩⟩
+      | some n =>
+        simp only [(hkey n rfl).1, if_true]
+        have hf := (release_finv hp _ s' hi1 (futF _)).1
+        exact ⟨(W_emit_other _ _ _ _ _ (by intros; simp)).trans (release_W hp s mid _ s' hi1),
+          finv_emit_other _ hf ⟨by intros; simp, by intros; simp⟩⟩
+    rw [afterRx_W hp s mid _ hk1.2, hk1.1]
+    exact hle1
+  | rxNon s' m' tok => exact absurd hok (by simp [EvG])
+  | rxBad s' m' => exact absurd hok (by simp [EvG])
+  | hold s' => exact absurd hok (by simp [EvG])
+  | connect s' => exact absurd hok (by simp [EvG])
+  | disconnect s' => exact absurd hok (by simp [EvG])
+
+theorem run_W {par : Nat → Sess} {P : Nat → Nat → Nat → Prop} (hp : GPar par) (s mid : Nat) :
+    ∀ (evs : List Ev) (l : L), FInv False par P l → RunG l evs →
+      (∀ s mid r, Ev.submit s true mid r ∈ evs → P s mid (calcTimeout (par s).atI (par s).atF (par s).arfI (par s).arfF r)) →
+      W s mid (par s).maxRtx (Msg.run l evs) ≤ W s mid (par s).maxRtx l + ((par s).maxRtx + 1) * accC s mid l evs := by
+  intro evs
+  induction evs with
+  | nil => intro l _ _ _; exact Nat.le_add_right _ _
+  | cons ev evs ih =>
+    intro l hi hin hP
+    have hi1 := step_finv (pu := False) hp l ev hi hin.1 (fun h => h.elim) (fun s mid r h => hP s mid r (by simp [h]))
+    have h1 := step_W hp s mid l ev hi hin.1
+    have h2 := ih _ hi1 hin.2 (fun s mid r h => hP s mid r (by simp [h]))
+    simp only [Msg.run, List.foldl_cons, accC, Nat.mul_add] at h2 ⊢
+    omega
+
+theorem W_init (s mid mx now0 : Nat) (sess : List Sess) (h : ∀ se ∈ sess, SessOk se) :
+    W s mid mx (Msg.init now0 sess) = 0 := by
+  have := (parOf_ok sess h s).2.1
+  simp only [W, Msg.init, txC, budC]
+  show 0 + 0 + (mx + 1) * midC mid (parOf sess s).delayq = 0
+  rw [this]; rfl
+
 end Coap.Sched
